@@ -540,7 +540,7 @@ func c04Hashing(depth int) mc.Harness {
 		}
 		states, _ = c04BFS(depth)
 		c64, c256 := contents(64, 8), contents(256, 16)
-		for _, k := range []int{kGray, kYCbCr, kNRGBAHoles, kRGBA} {
+		for _, k := range []int{kGray, kYCbCr, kNRGBAHoles, kRGBA, kRGBAHoles} {
 			for _, ci := range []int{0, 2, 5, 40, 131, 260, len(c64) - 1} {
 				vs = append(vs, hv{fmt.Sprintf("64x64 %s %s", kindName[k], c64[ci].name), buildImage(k, 0, 64, c64[ci]), 0})
 			}
@@ -603,7 +603,7 @@ func init() {
 				{Name: "histories-x-decoding-victims", H: c04Harness(tier, depth), NoLevels: true, Isolate: true, SplitDepth: 1,
 					Rule: fmt.Sprintf("breadth-first search to depth %d over 26 residue operations (decodes of rich/erroring/offset-time inputs through every container entry point, preview, XMP, hashes of valid and invalid images, 4 pool-poisoning patterns) x 3 pool-answer policies, states deduplicated by the canonical content of all pooled objects and of the time-zone cache; in every state every victim (every seed x entry point, cuts of the generated seeds, single-field malformations) must return exactly what it returns on pristine state", depth)},
 				{Name: "histories-x-hashing-victims", H: c04Hashing(depth), NoLevels: true, Isolate: true, SplitDepth: 1,
-					Rule: "the same states x 40 valid images (4 formats, both hash sizes) and 10 wrong-sized images through the four hash functions"},
+					Rule: "the same states x 50 valid images (5 formats, both hash sizes) and 10 wrong-sized images through the four hash functions"},
 				{Name: "returned-results-survive-later-activity", H: c04Aliasing, NoLevels: true, Isolate: true, SplitDepth: 1,
 					Rule: "for every seed: results of Decode, exif2.Parse, DecodePng, PreviewCR3, ParseXmp are held, then the pools are poisoned (4 patterns) or every residue operation is run (two orders); the held results must print identically afterwards"},
 			}
